@@ -617,12 +617,35 @@ func init() {
 			runTxCheck(c, txGenOpts{conflicts: 0, blocks: true, untrusted: true, chains: true, local: true, silentPeers: true, maxTxs: 12},
 				func(e *txEval) { e.checkDelivery(c) })
 		}})
+	Register(&Check{Prop: "C04", Sub: "proofs-in-tx-histories", Weight: 1, Real: txReal, Stub: txStub,
+		Req:  []string{"in_sync_reached", "proof_checked", "confirmed_after_unsafe"},
+		Rule: "the transaction scenario with double-spend attempts, chains, untrusted sightings, a possibly lost trusted connection and blocks confirming previously seen (safe, unsafe, never seen) transactions; every notification carrying a proof is verified independently (root, true index, containing block, depth zero) and every relevant transaction of a processed block has one.",
+		Run: func(c *Ctx) {
+			runTxCheck(c, txGenOpts{conflicts: 1, blocks: true, untrusted: true, chains: true, maxTxs: 8, dropConn: true},
+				func(e *txEval) {
+					e.checkProofs(c)
+					for _, h := range e.hs {
+						unsafe := false
+						for _, s := range h.states() {
+							if s.st.UnSafe && s.st.MerkleProof == nil {
+								unsafe = true
+							}
+							if unsafe && s.st.MerkleProof != nil {
+								c.Probe("confirmed_after_unsafe")
+							}
+						}
+					}
+				})
+		}})
 	Register(&Check{Prop: "C05", Sub: "conflicts-node", Weight: 1, Real: txReal, Stub: txStub,
 		Req:  []string{"in_sync_reached", "conflict_pair_seen"},
 		Rule: "transaction sets with k-way and partial outpoint conflicts, arrival orders and sources, confirming blocks and schedule drawn from the tape; non-trivial = more than one transaction.",
 		Run: func(c *Ctx) {
 			runTxCheck(c, txGenOpts{conflicts: 2, blocks: true, untrusted: true, chains: true, maxTxs: 8},
-				func(e *txEval) { e.checkConflicts(c) })
+				func(e *txEval) {
+					e.checkConflicts(c)
+					e.checkSafe(c, false) // "neither is subsequently reported safe"
+				})
 		}})
 	Register(&Check{Prop: "C06", Sub: "confirmed-double-spend", Weight: 1, Real: txReal, Stub: txStub,
 		Req:  []string{"in_sync_reached", "confirmed_double_spend"},
